@@ -84,7 +84,8 @@ def collect_instructions(year, fname):
                 out[line] = (('carry', ent['carry'][0], ent['carry'][1]), f'transcribed:{ent["source"]}: {ent["text"]}')
             continue
         if ent.get('term'):
-            if line not in out:
+            # a transcription may complete a template text that states only part of the rule (replaces_template)
+            if line not in out or ent.get('replaces_template'):
                 out[line] = (_term_of_json(ent['term']), f'transcribed:{ent["source"]}: "{ent["text"]}"')
             continue
         r = instr.parse(ent['text'], ent.get('order'), line)
@@ -99,7 +100,7 @@ def _term_of_json(j):
         return ('line', j[1], j[2])
     if isinstance(j, list) and j and j[0] == 'const':
         return ('const', Fraction(j[1]))
-    if isinstance(j, list) and j and j[0] in ('add', 'min', 'max'):
+    if isinstance(j, list) and j and j[0] in ('add', 'min', 'max', 'oneof'):
         return (j[0], [_term_of_json(x) for x in j[1]])
     if isinstance(j, list) and j:
         return tuple([j[0]] + [_term_of_json(x) for x in j[1:]])
@@ -158,6 +159,9 @@ def term_z3(term, year, form, cat):
     if k == 'ite_gt':
         a, b = term_z3(term[1], year, form, cat), term_z3(term[2], year, form, cat)
         return z3.If(a > b, term_z3(term[3], year, form, cat), term_z3(term[4], year, form, cat))
+    if k == 'oneof':
+        # the box holds one of several amounts, which one is decided by a condition the text does not state in checkable form
+        return [term_z3(t, year, form, cat) for t in term[1]]
     if k == 'addrows':
         rows = sorted(n for n in cat.fields if n.startswith(f'{form.name()}.{term[1]}_amount_'))
         if not rows:
@@ -206,6 +210,8 @@ def eval_native(term, form, values, inputs):
         return max(eval_native(t, form, values, inputs) for t in term[1])
     if k == 'ite_gt':
         return eval_native(term[3], form, values, inputs) if eval_native(term[1], form, values, inputs) > eval_native(term[2], form, values, inputs) else eval_native(term[4], form, values, inputs)
+    if k == 'oneof':
+        return None
     if k == 'addrows':
         return sum(Fraction(repr(float(v or 0.0))) for n, v in values.items() if n.startswith(f'{form.name()}.{term[1]}_amount_'))
     if k == 'ceilmult':
@@ -249,37 +255,40 @@ def check_form(year, fname):
         except NoSuchLine as e:
             uncovered.append(f'{line} (instruction names {e}, which habutax does not define)')
             continue
-        bad = None
-        nret = 0
-        for p in paths:
-            if p.outcome[0] != 'return':
-                continue
-            nret += 1
-            v = p.outcome[1]
-            if v is None or (isinstance(v, str) and v.strip() == ''):
-                vt = z3.RealVal(0)
-            elif sym.kind_of(v) in sym.NUM:
-                vt = sym.term(v, 'real')
-            else:
-                continue
-            hyp = p.conds + [f for f in p.facts if not z3.is_quantifier(f)]
-            st, model, be, secs, txt = smt.prove(hyp, vt == I, timeout_ms=8000)
-            extra = []
-            if st != 'discharged':
-                # callee contracts: stored money values are exact decimals (C12); lines of the frozen C15 list are non-negative
-                from . import c15
-                nn = set(c15.load_nonneg()['nonneg'].get(str(year), []))
-                extra = [h for h in c15.read_hyps(year, [vt, I] + hyp, nn, cents=True) if not z3.is_quantifier(h)]
-                st, model, be, secs, txt = smt.prove(hyp + extra, vt == I, timeout_ms=8000)
+        eqI = (lambda t: z3.Or(*[t == x for x in I])) if isinstance(I, list) else (lambda t: t == I)
+        def prove_line(assume=()):
+            bad, nret = None, 0
+            for p in paths:
+                if p.outcome[0] != 'return':
+                    continue
+                nret += 1
+                v = p.outcome[1]
+                if v is None or (isinstance(v, str) and v.strip() == ''):
+                    vt = z3.RealVal(0)
+                elif sym.kind_of(v) in sym.NUM:
+                    vt = sym.term(v, 'real')
+                else:
+                    continue
+                hyp = p.conds + [f for f in p.facts if not z3.is_quantifier(f)] + list(assume)
+                st, model, be, secs, txt = smt.prove(hyp, eqI(vt), timeout_ms=8000)
+                extra = []
                 if st != 'discharged':
-                    # callee contracts at their strongest: the definitions of the lines read, unfolded a few levels
-                    defs = c15.def_facts(year, [vt, I] + hyp, 4, {full})
-                    extra = defs + [h for h in c15.read_hyps(year, [vt, I] + hyp + defs, nn, cents=True) if not z3.is_quantifier(h)]
-                    st, model, be, secs, txt = smt.prove(hyp + extra, vt == I, timeout_ms=15000)
-            if st != 'discharged':
-                mdl, _ = replay.solve_model(p, extra=extra + [vt != I])
-                bad = (st, txt, mdl, p)
-                break
+                    # callee contracts: stored money values are exact decimals (C12); lines of the frozen C15 list are non-negative
+                    from . import c15
+                    nn = set(c15.load_nonneg()['nonneg'].get(str(year), []))
+                    extra = [h for h in c15.read_hyps(year, [vt] + (I if isinstance(I, list) else [I]) + hyp, nn, cents=True) if not z3.is_quantifier(h)]
+                    st, model, be, secs, txt = smt.prove(hyp + extra, eqI(vt), timeout_ms=8000)
+                    if st != 'discharged':
+                        # callee contracts at their strongest: the definitions of the lines read, unfolded a few levels
+                        defs = c15.def_facts(year, [vt] + (I if isinstance(I, list) else [I]) + hyp, 4, {full})
+                        extra = defs + [h for h in c15.read_hyps(year, [vt] + (I if isinstance(I, list) else [I]) + hyp + defs, nn, cents=True) if not z3.is_quantifier(h)]
+                        st, model, be, secs, txt = smt.prove(hyp + extra, eqI(vt), timeout_ms=15000)
+                if st != 'discharged':
+                    mdl, _ = replay.solve_model(p, extra=extra + list(assume) + [z3.Not(eqI(vt))])
+                    bad = (st, txt, mdl, p)
+                    break
+            return bad, nret
+        bad, nret = prove_line()
         clause = f'{full} == {render(term)}   [{prov}]'
         if bad is None and nret:
             obs.append(Ob(id=oid, backend='z3', function=fid, time_s=time.time() - t0, clause=clause, vc=f'{nret} returning path(s)'))
@@ -302,6 +311,14 @@ def check_form(year, fname):
             obs.append(Ob(id=oid, status=oblig.REFUTED if (st == 'refuted' or rep.get('reproduced')) else oblig.UNDECIDED, backend='z3', function=fid, clause='NOT: ' + clause,
                           solver_output=txt, witness=wit, replay=rep, vc=' AND '.join(str(c)[:100] for c in p.conds[-4:]),
                           replay_spec={'kind': 'line', 'year': year, 'line': full, 'inputs': wit.get('inputs', {}), 'values': wit.get('values', {})}))
+            # a recorded finding covers a class of failing reads; a mismatch outside that class is a different violation
+            from . import c15
+            cond = c15.recorded_condition(oid, year)
+            if cond is not None:
+                bad2, _ = prove_line(assume=[z3.Not(cond)])
+                if bad2 is not None:
+                    obs.append(Ob(id=oid + '/outside-recorded-input-class', status=oblig.REFUTED if bad2[0] == 'refuted' else oblig.UNDECIDED, backend='z3', function=fid,
+                                  clause='NOT: ' + clause + ' [also outside the class of reads the recorded finding names]', solver_output=bad2[1], replay={'reproduced': False}))
     obs.append(Ob(id=f'C02/{year}/{fname}/uncovered', backend='none', bounded=True, cases=len(uncovered), function=fname,
                   note=f'lines of {fname} mapped to a labelled box without a usable instruction term: {sorted(set(map(str, uncovered)))[:40]}'))
     return obs
@@ -323,6 +340,8 @@ def render(term):
         return f'{render(term[1])} / {render(term[2])}'
     if k in ('min', 'max'):
         return f'{k}({", ".join(render(t) for t in term[1])})'
+    if k == 'oneof':
+        return 'one of {' + ' | '.join(render(t) for t in term[1]) + '}'
     if k == 'ite_gt':
         return f'({render(term[3])} if {render(term[1])} > {render(term[2])} else {render(term[4])})'
     if k == 'by_status':
